@@ -327,13 +327,13 @@ class CGenerator:
     def visit_For(self, n: c_ast.For) -> str:
         s = "for ("
         if n.init:
-            s += self.visit(n.init)
+            s += self._visit_expr_stmt_part(n.init)
         s += ";"
         if n.cond:
-            s += " " + self.visit(n.cond)
+            s += " " + self._visit_expr_stmt_part(n.cond)
         s += ";"
         if n.next:
-            s += " " + self.visit(n.next)
+            s += " " + self._visit_expr_stmt_part(n.next)
         s += ")\n"
         s += self._generate_stmt(n.stmt, add_indent=True)
         return s
